@@ -68,6 +68,7 @@ type Run struct {
 	curInstr            ssa.Instruction
 	hang                *Violation
 	Blobs               []jsonBlob
+	Pools               map[*Value][]Value // sync.Pool model: objects put back, per pool
 	Deadline            time.Time
 	Pin                 map[string]uint64
 	PinAll              bool
